@@ -18,8 +18,10 @@ def make_wb(cells, sheet='S', arrays=None, names=None, iterate=None):
     ws = wb.active
     ws.title = sheet
     tables = {k: v for k, v in cells.items() if k.startswith('__table')}
+    if '__names__' in cells:            # defined names carried with the cells
+        names = dict(cells['__names__'], **(names or {}))
     for addr, v in cells.items():
-        if addr in tables:
+        if addr in tables or addr == '__names__':
             continue
         if '!' in addr:
             sh, a = addr.split('!')
